@@ -16,6 +16,11 @@ use std::time::{Duration, Instant};
 pub fn verif_dir() -> String {
     std::env::var("PGMC_VERIF_DIR").unwrap_or_else(|_| "/verif".to_string())
 }
+/// the tree the harness was built against (`bin/scratchcheck` builds against a scratch worktree and says so here;
+/// only used to find the corpus files and for the source scan of C20's assumption record)
+pub fn repo_dir() -> String {
+    std::env::var("PGMC_REPO_DIR").unwrap_or_else(|_| "/repo".to_string())
+}
 
 #[derive(Clone, Copy, PartialEq, Eq, Debug)]
 pub enum Tier {
